@@ -16,7 +16,7 @@ SPEC = {'id': 'C16',
  'ties': [(_T, _TN + n) for n in [
      'load_tie', 'poll_reads_count', 'tokens_shape', 'capacity_flag_reaches_tokens', 'poll_loop_gets_then_runs', 'runSession_stages',
      'early_exits_release_once', 'release_sites_share_one_once', 'close_before_release',
-     'callback_spawns_handler', 'handler_exits']],
+     'callback_spawns_handler', 'handler_exits', 'timeout_arm_does_not_wait']],
  'harness': [{'pkg': 'proxy/lib', 'test': 'TestVerifC16', 'checklinkname': True}],
  'overlay': {'proxy/lib/zz_verif_c16_test.go': 'c16_proxylib_test.go'},
  'rule': 'cases = get/ret/count sequences on the real tokens_t (capacity 0,1,2,3,8; every call in its own goroutine '
@@ -41,7 +41,7 @@ SPEC = {'id': 'C16',
                'get. released_exactly_once is false on the pinned tree (F11): refuted for the pinned skeleton by '
                'kernel-checked schedules (double release, capacity overrun with N = 1, poll loop blocked for good) and '
                'proved for the repaired one (per-session sync.Once). The load expression is translated from the source '
-               'and equal to the model by rfl; 10 regenerated skeleton obligations tie the labels to the source, one of '
+               'and equal to the model by rfl; 11 regenerated skeleton obligations tie the labels to the source, one of '
                'which (release_sites_share_one_once) catches F11 deterministically; the real tokens_t and the real '
                'runSession are run against the model and the property oracle, including the forced F11 schedule.',
  'level_note': 'proof-partial. Trusted / modelled, not verified: Go channels, atomics, sync.Once; tokens.ret() (atomic '
